@@ -18,6 +18,7 @@ import (
 	"time"
 
 	"github.com/quay/claircore"
+	"github.com/quay/claircore/toolkit/types/cpe"
 	"github.com/quay/claircore/verifharness/internal/hx"
 	"github.com/quay/zlog"
 	"github.com/rs/zerolog"
@@ -27,11 +28,60 @@ import (
 
 func hs(s string) string { return hx.Hex([]byte(s)) }
 
+// distKey renders every field of a distribution the parsers can set:
+// DID|VersionID|VersionCodeName|Name|Version|PrettyName|Arch|CPE.
 func distKey(d *claircore.Distribution) string {
 	if d == nil {
 		return ""
 	}
-	return d.DID + "|" + d.VersionID + "|" + d.VersionCodeName
+	return strings.Join([]string{d.DID, d.VersionID, d.VersionCodeName, d.Name, d.Version, d.PrettyName, d.Arch, d.CPE.BindFS()}, "|")
+}
+
+// mkDistKey is the harness's own statement of a release's distribution (the
+// expectation the real parsers' distributions are compared with).
+func mkDistKey(did, versionID, codeName, name, version, pretty, cpeURI string) string {
+	w := cpe.WFN{}
+	if cpeURI != "" {
+		w = cpe.MustUnbind(cpeURI)
+	}
+	return strings.Join([]string{did, versionID, codeName, name, version, pretty, "", w.BindFS()}, "|")
+}
+
+// issuedTok is the canonical form of a time: unix seconds, "" for the zero time.
+func issuedTok(t time.Time) string {
+	if t.IsZero() {
+		return ""
+	}
+	return strconv.FormatInt(t.Unix(), 10)
+}
+
+// unmodelled lists fields no parser of this property sets; a non-empty result
+// is appended to the canonical record (the model never produces it).
+func unmodelled(v *claircore.Vulnerability) string {
+	var x []string
+	if v.ID != "" {
+		x = append(x, "ID="+v.ID)
+	}
+	if p := v.Package; p != nil {
+		if p.ID != "" || p.Version != "" || p.Source != nil || p.PackageDB != "" || p.Filepath != "" || p.NormalizedVersion.Kind != "" || p.CPE.BindFS() != (cpe.WFN{}).BindFS() {
+			x = append(x, fmt.Sprintf("Package{ID=%q Version=%q Source=%v PackageDB=%q Filepath=%q NormalizedVersion=%q CPE=%q}", p.ID, p.Version, p.Source != nil, p.PackageDB, p.Filepath, p.NormalizedVersion.Kind, p.CPE.BindFS()))
+		}
+	}
+	if d := v.Dist; d != nil && d.ID != "" {
+		x = append(x, "Dist.ID="+d.ID)
+	}
+	if r := v.Repo; r != nil && r.ID != "" {
+		x = append(x, "Repo.ID="+r.ID)
+	}
+	if r := v.Range; r != nil {
+		for i := 4; i < len(r.Lower.V); i++ {
+			if r.Lower.V[i] != 0 || r.Upper.V[i] != 0 {
+				x = append(x, "Range uses version slots beyond the fourth")
+				break
+			}
+		}
+	}
+	return strings.Join(x, ";")
 }
 
 func repoKey(r *claircore.Repository) string {
@@ -59,7 +109,14 @@ func canon(v *claircore.Vulnerability) string {
 	} else {
 		f = append(f, "p", hs(v.Package.Name), hs(v.Package.Kind), hs(v.Package.Module), hs(v.Package.Arch))
 	}
-	f = append(f, strconv.Itoa(int(v.ArchOperation)), hs(v.FixedInVersion), hs(distKey(v.Dist)), hs(repoKey(v.Repo)), rangeStr(v.Range))
+	hint := ""
+	if v.Package != nil {
+		hint = v.Package.RepositoryHint
+	}
+	f = append(f, strconv.Itoa(int(v.ArchOperation)), hs(v.FixedInVersion), hs(distKey(v.Dist)), hs(repoKey(v.Repo)), rangeStr(v.Range), hs(issuedTok(v.Issued)), hs(hint))
+	if u := unmodelled(v); u != "" {
+		f = append(f, "unmodelled:"+hs(u))
+	}
 	return strings.Join(f, ",")
 }
 
@@ -105,6 +162,7 @@ type want struct {
 	ID, Pkg, Fixed, Dist string
 	Extra                string // format-specific (module, arch, range, repo)
 	Sev                  claircore.Severity
+	eco                  string // OSV: the affected entry's ecosystem (not part of the key; see osvHints)
 }
 
 func (w want) key() string {
@@ -243,6 +301,14 @@ func (g *gen) debVersion() string {
 		v += "-" + strconv.Itoa(g.r.Intn(30)) + ".el" + strconv.Itoa(6+g.r.Intn(4))
 	}
 	return v
+}
+
+// date draws an issue date (second precision, UTC); zero one time in six.
+func (g *gen) date() time.Time {
+	if g.r.Chance(1, 6) {
+		return time.Time{}
+	}
+	return time.Date(2009+g.r.Intn(16), time.Month(1+g.r.Intn(12)), 1+g.r.Intn(28), g.r.Intn(24), g.r.Intn(60), g.r.Intn(60), 0, time.UTC)
 }
 
 func genURL(g *gen) string {
